@@ -2,8 +2,11 @@
     Only statements; every proof is [exact <lemma from IndProofs.SimProofs>].
     Model: coq/model/Sys.v; the fault oracle [fails : N -> bool] says which TermLike call (numbered
     over the whole run by [s_calls]) returns an I/O error; [emit] stops a draw at the first
-    failing call (the `?` chain of DrawState::draw_to_term, src/draw_target.rs:505-590) and
-    last_line_count is then not updated; closures of suspend ignore their own errors
+    failing call (the `?` chain of DrawState::draw_to_term, src/draw_target.rs:514-645); an
+    aborted draw does not store the new last_line_count / cursor_below, but it DOES leave the
+    old count capped at the terminal height ([term_draw]: `N.min (tt_n t) H` - since fix 7d42cff
+    the code caps `*bar_count` in place, src/draw_target.rs:526-529, before its first fallible
+    call); closures of suspend ignore their own errors
     ([emit_each]).  The model has NO panic outcome for an I/O result: after fix 1c94c14 every
     io::Result is either discarded (`let _ =`) or returned (MultiProgress::println / clear);
     docs/C18.md enumerates the sites, harness/src/bin/c18.rs audits them statically and injects
@@ -101,7 +104,7 @@ Theorem C18_structure_keeps : forall s,
 Proof. exact erase_io_keeps. Qed.
 Print Assumptions C18_structure_keeps.
 
-(** Non-vacuity: a history on a MultiProgress in which call 3 fails: mp.println reports the
+(** Non-vacuity: a history on a MultiProgress in which call 8 (and every call from 16 on) fails: mp.println reports the
     error, later calls work, positions are those of the fault-free run while the calls that
     reach the terminal differ. *)
 Definition ex18_sys : sys :=
